@@ -8,7 +8,9 @@
     the type's length, ...); [supported ty]: unnamed basic types (uint8..uint64, int8..int64, float32/64 as
     IEEE bit patterns, bool, string), slices (named or not), arrays of fewer than 2^32 elements and structs
     of supported types, nested arbitrarily — unexported struct fields may have ANY type;
-    [fits ty v]: every string and slice in exported positions has fewer than 2^32 elements;
+    [fits ty v]: every string and slice in exported positions has fewer than 2^32 elements, and every slice
+    whose element type occupies no bytes on the wire ([wire0]: struct{}, structs with only unexported fields)
+    is empty;
     [write ty v] = Writer.Write(v); [read ty bs] = Reader.Read(&x) for a variable x of type ty: its first
     component is the outcome (value, remaining input), the second a cost meter (see C13_reflect.v);
     [norm ty v] = v with nil slices replaced by empty slices and unexported struct fields replaced by
@@ -70,7 +72,7 @@ Theorem C12_reflect ty v :
   exists b, write ty v = OOk b /\ forall rest, fst (read ty (b ++ rest)) = OOk (norm ty v, rest).
 Proof. exact (roundtrip ty v). Qed.
 (** the hypotheses are satisfiable by a nested value with an unexported field, a nil slice, a named slice,
-    NaN / -0 float patterns and zero-size elements (on which [norm] is not the identity) *)
+    NaN / -0 float patterns and an array of zero-size elements (on which [norm] is not the identity) *)
 Example C12_reflect_example :
   supported ex_ty = true /\ has_typeb ex_ty ex_val = true /\ fits ex_ty ex_val = true /\ norm ex_ty ex_val <> ex_val.
 Proof. exact ex_ok. Qed.
@@ -111,6 +113,13 @@ Proof. exact w_nil_slice. Qed.
 Theorem C12_unexported_field_refuted : exists ty v b v', supported ty = true /\ has_typeb ty v = true /\ fits ty v = true /\
   write ty v = OOk b /\ fst (read ty b) = OOk (v', []) /\ v = VStruct [VZ 5; VN 1] /\ v' = VStruct [VZ 0; VN 1].
 Proof. exact w_unexported. Qed.
+(** a NON-EMPTY slice of elements that occupy no bytes on the wire ([]struct{}{{}}): it is written as its
+    length only; the reader rejects a slice length above the number of remaining bytes (its defence against
+    hostile lengths), so the value reads back only when enough unrelated bytes happen to follow *)
+Theorem C12_zero_size_elements_refuted : exists ty v b, supported ty = true /\ has_typeb ty v = true /\ fits ty v = false /\
+  write ty v = OOk b /\ fst (read ty b) = OErr EEOF /\ fst (read ty (b ++ [9])) = OOk (v, [9])
+  /\ ty = TSlice false (TStruct []) /\ v = VList [VStruct []].
+Proof. exact w_wire0_slice. Qed.
 (** a string or []byte of 2^32 bytes or more: the length prefix is uint32(len), the reader cannot return it *)
 Theorem C12_string_2pow32_refuted s rest : 4294967296 <= N.of_nat (length s) -> rd_string (put_string s ++ rest) <> Ok (s, rest).
 Proof. exact (string_too_long s rest). Qed.
@@ -140,15 +149,16 @@ Theorem C12_pointer_to_interface :
   /\ write (TPtr TIface) (VPtr (VIface (TStruct []) (VStruct []))) = OErr EUnsupported
   /\ write (TStruct [(true, TIface)]) (VStruct [VIface (TStruct []) (VStruct [])]) = OOk [].
 Proof. exact w_ptr_iface. Qed.
-(** named basic types, int, uint, map, chan, func, nil interface, nil pointers (other than the type switch's
-    own pointer cases), pointer and interface targets: rejected by writer and/or reader with an error *)
+(** named basic types, int, uint, map, chan, func, nil interface, nil pointers (except *[]byte, written as an
+    empty slice), pointer and interface targets: rejected by writer and/or reader with an error *)
 Theorem C12_unsupported_kinds :
   (forall b v, basic_ok b v = true -> write (TNamed b) v = OErr EUnsupported /\ forall bs, fst (read (TNamed b) bs) = OErr EUnsupported) /\
   (forall z, write TInt (VZ z) = OErr EUnsupported /\ forall bs, fst (read TInt bs) = OErr EUnsupported) /\
   (forall n, write TUint (VN n) = OErr EUnsupported /\ forall bs, fst (read TUint bs) = OErr EUnsupported) /\
   (forall v, v = VNil \/ v = VOpaque -> write TMap v = OErr EUnsupported /\ write TChan v = OErr EUnsupported /\ write TFunc v = OErr EUnsupported) /\
   write TIface VNil = OErr EUnsupported /\
-  (forall t, (forall b, t <> TBasic b) -> t <> TSlice false (TBasic BU8) -> write (TPtr t) VNil = OErr EInvalid) /\
+  (forall t, t <> TSlice false (TBasic BU8) -> write (TPtr t) VNil = OErr EInvalid) /\
+  write (TPtr (TSlice false (TBasic BU8))) VNil = OOk [0; 0; 0; 0] /\
   (forall t bs, fst (read (TPtr t) bs) = OErr EUnsupported) /\ (forall bs, fst (read TIface bs) = OErr EUnsupported).
 Proof. exact unsupported_kinds. Qed.
 (** 1- and 2-byte length prefixes: longer data is refused by the writer; other sizes are refused by both *)
@@ -186,6 +196,7 @@ Print Assumptions C12_schema.
 Print Assumptions C12_write_pointer.
 Print Assumptions C12_nil_slice_refuted.
 Print Assumptions C12_unexported_field_refuted.
+Print Assumptions C12_zero_size_elements_refuted.
 Print Assumptions C12_string_2pow32_refuted.
 Print Assumptions C12_slice_length_wraps.
 Print Assumptions C12_array_2pow32_refuted.
